@@ -4,6 +4,7 @@ Every rule takes the job result of the driver (ai mode), the parameter table of 
 `ob(ok, key, detail)` callback; keys carry no line numbers.  A missing anchor (no site found) is a
 failed obligation: the rules fail closed.
 """
+import json
 import re
 
 import absorb
@@ -99,6 +100,70 @@ def sampler_fill(job, ob, entry, expected):
         ob(len(pr) >= want and not bad, "sampler-fills-256:%s:%s" % (fn, entry),
            {"rule": "the rejection sampler leaves its loop only with 256 accepted coefficients (a counter variable is exactly 256 at the end of its scope on every path to the return)",
             "entry": job["root"], "function": fn, "calls_analysed": len(pr), "calls_expected_at_least": want, "offending": bad[:2]})
+
+
+def sample_in_ball_shape(job, P, ob, entry, sib_sites, min_calls=1):
+    """Alg. 29 skeleton, decided on every activation of SampleInBall reachable from this entry (job option probe
+    must include hashing::sample_in_ball).  Hash output values are opaque; what is decided is the part of the
+    shuffle that is visible in the shape of the code:
+      SB1 tau handed to the function is FIPS 204 Table 1's;
+      SB2 the instance's first squeeze is the 8 sign bytes at offset 0, every later squeeze is one index byte,
+          the first of them at offset 8;
+      SB3 every returned coefficient is in {-1, 0, 1};
+      SB4 the outer loop visits exactly positions 256-tau .. 255 and the sign-bit index covers exactly 0 .. tau-1
+          (some named variable ends its scope with each of these exact intervals; no name is matched)."""
+    tau = P["tau"]
+    pr = ret_probes(job, "hashing::sample_in_ball")
+    bad = []
+    for p in pr:
+        d = p["data"]
+        args = (d.get("args") or "").split(" ; ")
+        ends = dict(x.split("=", 1) for x in (d.get("scope_end") or "").split(";") if "=" in x)
+        try:
+            ret = json.loads(d.get("ret") or "null")
+        except ValueError:
+            ret = None
+        rng = None
+        v = ret
+        while isinstance(v, list) and len(v) == 1:
+            v = v[0]
+        while isinstance(v, dict) and "arr_len" in v:
+            n_ = v["arr_len"]
+            v = v["elems"]
+            while isinstance(v, list) and len(v) == 1:
+                v = v[0]
+        if isinstance(v, dict) and "int" in v:
+            rng = tuple(v["int"])
+        why = []
+        if not args or args[0] != str(tau):
+            why.append("SB1 tau=%s, expected %d" % (args[:1], tau))
+        if rng is None or rng[0] < -1 or rng[1] > 1:
+            why.append("SB3 coefficient range %s not within [-1,1]" % (rng,))
+        if "[%d,255]" % (256 - tau) not in ends.values():
+            why.append("SB4 no variable ranges over exactly the positions %d..255" % (256 - tau))
+        if "[0,%d]" % (tau - 1) not in ends.values():
+            why.append("SB4 no variable ranges over exactly the sign-bit indices 0..%d" % (tau - 1))
+        if why:
+            bad.append({"call": d.get("path", "")[-120:], "why": why, "final_values_of_named_integer_variables": ends})
+    rbad = []
+    for x in sib_sites:
+        rd = absorb.reads(job, x["id"])
+        # the same instance may be recorded by several activations (peeled iterations, replayed summaries): split the
+        # recorded reads into runs that each start at stream offset 0
+        runs = []
+        for r in rd:
+            if r["off"] == "0..0" or not runs:
+                runs.append([])
+            runs[-1].append(r)
+        ok = any(len(run) >= 2 for run in runs) and all(
+            run[0]["len"] == "8" and run[0]["off"] == "0..0" and run[0]["dest_start"] == "0" and all(r["len"] == "1" for r in run[1:])
+            and (len(run) < 2 or run[1]["off"] == "8..8") for run in runs)
+        if not ok:
+            rbad.append({"instance": x["rendered"][:80], "reads": [{k: r.get(k) for k in ("len", "off", "dest_start")} for r in rd[:8]]})
+    ob(len(pr) >= min_calls and len(sib_sites) >= min_calls and not bad and not rbad, "sample-in-ball-skeleton:%s" % entry,
+       {"rule": "SampleInBall skeleton (Alg. 29): tau of Table 1; 8 sign bytes squeezed first, then single index bytes from offset 8; positions 256-tau..255 visited, "
+                "sign-bit index 0..tau-1; coefficients in {-1,0,1}", "entry": job["root"], "tau": tau, "activations_analysed": len(pr), "hash_instances": len(sib_sites),
+        "offending": bad[:2], "offending_reads": rbad[:2]})
 
 
 def single_read(job, site, length, dest_suffix):
